@@ -14,6 +14,6 @@ type (
 	RWMutex   = vsched.RWMutex
 	Once      = vsched.Once
 	Locker    = stdsync.Locker
-	Pool      = stdsync.Pool
+	Pool      = vsched.Pool
 	Map       = stdsync.Map
 )
